@@ -56,8 +56,19 @@ def cases(tier, seed):
                 combos = [(BASES[i % 4], PASSES[i % len(PASSES)]), ('word', 'optimize'), ('synth', 'optimize')]
             else:
                 combos = [(b, p) for b in BASES for p in ('optimize', PASSES[i % len(PASSES)])]
+        if c['fam'] in ('CONSTOP', 'DUP', 'MISC', 'EXPR', 'SEQ') and (tier != 'quick' or i % 3 == 0):
+            extra = [('word', 'cse_thresh'), ('synth', 'cse_thresh'), ('word', 'optimize_nocheck'), ('word', 'unused_wires'),
+                     ('word', 'constprop_silent')]
+            combos = list(combos) + (extra if tier != 'quick' else [extra[i % len(extra)], extra[(i // 3) % len(extra)]])
         for j, (b, p) in enumerate(dict.fromkeys(combos)):
-            out.append(dict(c, K=K, base=b, pas=p, scope=('both', 'explicit', 'implicit')[(i + j) % 3]))
+            d = dict(c, K=K, base=b, pas=p, scope=('both', 'explicit', 'implicit')[(i + j) % 3])
+            if p == 'cse_thresh':
+                # (abs_thresh=0 with percent_thresh=0 never terminates on the pinned tree: "stop when the net count shrank by
+                #  less than 0" is never true; the thresholds are stopping heuristics, not part of the property; not used)
+                d.update({'abs': (1, 2, 5)[i % 3], 'pct': (0, 0.5, 0.99)[(i // 3) % 3]})
+            if p == 'unused_wires':
+                d['keep_inputs'] = bool(i % 2)
+            out.append(d)
     return out
 
 
@@ -94,6 +105,18 @@ def apply_pass(case, blk, other=None):
             r = blk
         elif p == 'cse':
             P.common_subexp_elimination(blk)
+            r = blk
+        elif p == 'cse_thresh':
+            # non-default termination thresholds: fewer / more rounds, same behaviour
+            P.common_subexp_elimination(blk, abs_thresh=case.get('abs', 0), percent_thresh=case.get('pct', 0.5))
+            r = blk
+        elif p == 'optimize_nocheck':
+            r = pyrtl.optimize(skip_sanity_check=True, **okw)
+        elif p == 'unused_wires':
+            P._remove_unused_wires(blk, keep_inputs=case.get('keep_inputs', True))
+            r = blk
+        elif p == 'constprop_silent':
+            P.constant_propagation(blk, silence_unexpected_net_warnings=True)
             r = blk
         elif p == 'cse+constprop':
             P.common_subexp_elimination(blk)
